@@ -393,7 +393,7 @@ def run(tier, seed):
         for d in lst:
             be = "sympy-%s (expand/cancel%s)" % (sp.__version__, "; random exact rational coefficient point" if "random exact" in d["name"] else "")
             run.add_verdicts([report.Verdict(d["name"], d["status"], be, d["seconds"], "post", SU, d["detail"])])
-    ev, cf = report.guarded(run, float_histories, seed, 5 if tier == "quick" else 40)
+    ev, cf = report.guarded(run, float_histories, seed, 5 if tier == "quick" else 120)
     run.bounded.append(dict(name="float: random send histories (redo, jump back, add-on) on the real solvers incl. the coupled/complex-modes generator vs batch tsolve",
                             evaluations=ev, failures=0 if cf is None else 1, label="bounded (never counted as proved)"))
     failed = [v for v in run.verdicts if v.status == "failed"]
